@@ -1236,7 +1236,7 @@ def combined_case(rng):
         # conflict at the top of the file: the region is the first thing in its hunk
         lines = lines[:5] + lines[lines.index("++<<<<<<< HEAD"):]
     p = files[0]["new"]
-    lines = [l.replace(p, COMBINED_PATH) if i < 4 else l for i, l in enumerate(lines)]
+    lines = [f"diff --cc {COMBINED_PATH}", lines[1], f"--- a/{COMBINED_PATH}", f"+++ b/{COMBINED_PATH}"] + lines[4:]
     if rng.random() < 0.6:
         pre, _ = M.gen_git_diff(rng, nfiles=1, with_commit=False, kinds=["modified"])
         lines = pre + lines
@@ -1273,6 +1273,11 @@ def eval_combined(ctx, rep, cases):
         first_is_conflict = any(l.startswith("@@@") and c["input"].split("\n")[i + 1].startswith("++<<<<<<<")
                                 for i, l in enumerate(c["input"].split("\n")[:-1]))
         rep.count("combined:" + ("conflict-first" if first_is_conflict else "line-first"))
+        content = [l for l in c["input"].split("\n")[c["input"].split("\n").index(f"+++ b/{COMBINED_PATH}") + 2:]
+                   if l and not l.startswith(("++<<<<<<<", "++|||||||", "++=======", "++>>>>>>>"))]
+        if not content:
+            rep.count("combined:no-content-line")     # only markers: nothing to number
+            continue
         if nums is None or nums == []:
             rep.violation("combined:no-numbered-row", f"no numbered row after the file header of {COMBINED_PATH}", c)
         elif any(n != c["start"] for n in nums):
